@@ -155,6 +155,14 @@ class ParameterParser(Logger):
             self.critical('Binning must be defined for SNR instrument')
             raise ValueError('Binning must be defined for SNR instrument')
         else:
+            unknown = [k for k in config if k not in ('instrument', 'SNR', )]
+            if unknown:
+                self.error('SNR instrument does not have parameters %s',
+                           unknown)
+                self.error('Available parameters are %s',
+                           ['SNR', 'num_observations'])
+                raise KeyError('Unknown parameters {} in '
+                               '[Instrument]'.format(unknown))
             SNR = 10
             if 'SNR' in config:
                 SNR = config['SNR']
